@@ -124,7 +124,7 @@ func genMediaTypes() {
 		}
 	}
 	// mutations of valid names
-	n := run.Scale(20000, 1000000)
+	n := run.Scale(12000, 1000000)
 	all := allBytes()
 	for i := 0; i < n; i++ {
 		s := randValidMediaType(r)
@@ -209,7 +209,7 @@ func genTimes() {
 			timeCase(fmt.Sprintf("2006-01-02T%02d:%02d:%02dZ", h, m, m))
 		}
 	}
-	n := run.Scale(20000, 1000000)
+	n := run.Scale(12000, 1000000)
 	all := allBytes()
 	for i := 0; i < n; i++ {
 		s := randTime(r)
@@ -714,9 +714,12 @@ func enumFaults() {
 				for ci := 0; ci < 2; ci++ {
 					for li := 0; li < 2; li++ {
 						for fa := -1; fa <= 4; fa++ {
-							for _, fe := range []string{"", "notfound", "dupname", "closed", "unsupported"} {
+							for fi, fe := range []string{"", "notfound", "dupname", "closed", "unsupported"} {
 								if fa < 0 && fe != "" {
 									continue
+								}
+								if !run.Thorough() && fi >= 3 && (ci != 0 || li != 0) {
+									continue // quick: the two rarer error classes only on the plain option set
 								}
 								sp := &spec{Fn: fn, Target: tg, Exists: ex, FailAt: fa, FaultErr: fe, AT: "application/vnd.example.thing", Backed: backing,
 									Ann: map[string]string{createdKey(fn): "2021-07-01T12:00:00Z"}}
